@@ -1354,6 +1354,22 @@ FUNCS = [
          verbatim=[("client.bye();", ""),
                    ('if conflicts == 0 { Ok(()) } else { Err(format!("{conflicts} CAS conflict(s) — re-run to reconcile").into()) }',
                     "if conflicts == 0 then\n  return true\nelse\n  return false")]),
+    # ---- the two command-line location parsers (`find(':')` + the two slices around the index = `Meta.cut`)
+    dict(group="target", file="src/bin/copia/hub.rs", name="split_target", sig=None, option=True, no_loop=True,
+         lean="def splitTargetGen (t : List Char) : Option (List Char × List Char) := Id.run do", calls={}, paths={},
+         verbatim=[("let idx = t.find(':')?;", "let some (before_, after_) := Copia.Meta.cut ':' t | return none"),
+                   ("let host = &t[..idx];", "let host := before_"),
+                   ("if host.is_empty() || host.contains('/') { None } else { Some((host, &t[idx + 1..])) }",
+                    "if host.isEmpty || host.contains '/' then\n  return none\nelse\n  return (some (host, after_))")]),
+    dict(group="target", file="src/bin/copia/main.rs", name="parse", sig=None,
+         lean="def parseLocationGen (s : List Char) : Copia.Target.Loc := Id.run do", calls={}, paths={},
+         verbatim=[("if let Some(colon_pos) = s.find(':') { let before_colon = &s[..colon_pos]; "
+                    "if before_colon.len() > 1 && !before_colon.contains('/') && !before_colon.contains('\\\\') { "
+                    "return Self::Remote { host: before_colon.to_string(), path: s[colon_pos + 1..].to_string(), }; } }",
+                    "if let some (before_colon, after_) := Copia.Meta.cut ':' s then\n"
+                    "  if decide (Copia.Target.utf8Len before_colon > 1) && !before_colon.contains '/' && !before_colon.contains '\\\\' then\n"
+                    "    return (Copia.Target.Loc.remote before_colon after_)"),
+                   ("Self::Local(PathBuf::from(s))", "return (Copia.Target.Loc.localPath s)")]),
     # ---- hub.rs: the client side of one Put
     dict(group="hubsync", file="src/bin/copia/hub.rs", name="put", sig=None,
          lean="def clientPutGen {P H : Type} (metadata_len : Option Nat) (file_bytes : Option Copia.Hub.Bytes) (recv : Option (Copia.Hub.Reply H))\n"
@@ -1757,13 +1773,14 @@ GROUP_HEAD = {
     "wire": ("import Copia.Model.Hub\nimport Copia.Model.WireSupport", "open Copia.WireSupport (FrameRes)\nopen Copia.Hub (Req Reply Session Exit HTree)"),
     "hubput": ("import Copia.Model.HubTrace\nimport Copia.Model.HubGetSolo\nimport Copia.Model.Hub\nimport Copia.Model.HubLock\nimport Copia.Model.HexSupport", "open Copia.HubConc (Call Chunk Hash)\nopen Copia.HubGet (GCall)\nopen Copia.HubLock (LockCall)"),
     "deliver": ("import Copia.Model.Deliver", "open Copia.Deliver (DStep)"),
+    "target": ("import Copia.Model.Target", ""),
     "oneway": ("import Copia.Model.OneWay\nimport Copia.Gen.LoopsPlan", ""),
     "crash": ("import Copia.Model.Crash", "open Copia.Crash (Side FsStep)"),
     "delta": ("import Copia.Model.DeltaSupport",
               "open Copia.Delta Copia.DeltaSupport\nopen Copia.Checksum (Fast)"),
 }
 
-GROUPS = {"reconcile": "LoopsReconcile.lean", "plan": "LoopsPlan.lean", "bidir": "LoopsBidir.lean", "delta": "LoopsDelta.lean", "hub": "LoopsHub.lean", "hubsync": "LoopsHubSync.lean", "hubput": "LoopsHubPut.lean", "wire": "LoopsWire.lean", "archive": "LoopsArchive.lean", "scan": "LoopsScan.lean", "codec": "LoopsCodec.lean", "crash": "LoopsCrash.lean", "deliver": "LoopsDeliver.lean", "oneway": "LoopsOneWay.lean"}
+GROUPS = {"reconcile": "LoopsReconcile.lean", "plan": "LoopsPlan.lean", "bidir": "LoopsBidir.lean", "delta": "LoopsDelta.lean", "hub": "LoopsHub.lean", "hubsync": "LoopsHubSync.lean", "hubput": "LoopsHubPut.lean", "wire": "LoopsWire.lean", "archive": "LoopsArchive.lean", "scan": "LoopsScan.lean", "codec": "LoopsCodec.lean", "crash": "LoopsCrash.lean", "deliver": "LoopsDeliver.lean", "oneway": "LoopsOneWay.lean", "target": "LoopsTarget.lean"}
 
 
 def translate(group):
